@@ -232,6 +232,7 @@ func (w *World) teardownFree() {
 	for _, s := range w.net.Streams() {
 		s.Break(true, true)
 	}
+	w.bufStop()
 	// wait for stragglers: operations released by the teardown must have written their records before the
 	// monitors read the trace (they run on another goroutine)
 	for j := 0; j < 10000; j++ {
@@ -371,7 +372,13 @@ func genStress(t *rapid.T) *Case {
 		r.HWaitRecv = rapid.Bool().Draw(t, fmt.Sprintf("r%d.waitrecv", i))
 		r.HdrOpt, r.TrlOpt = rapid.Bool().Draw(t, fmt.Sprintf("r%d.hdropt", i)), rapid.Bool().Draw(t, fmt.Sprintf("r%d.trlopt", i))
 		r.CallHeader = rapid.SampledFrom([]int{0, 1, -1}).Draw(t, fmt.Sprintf("r%d.callheader", i))
-		r.HOps = append([]MDOp{{Kind: "sethdr", MD: map[string][]string{"h": {"1"}}}}, r.HOps...)
+		hdr := MDOp{Kind: "sethdr", MD: map[string][]string{"h": {"1"}}}
+		if rapid.IntRange(0, 3).Draw(t, fmt.Sprintf("r%d.bighdr", i)) == 0 {
+			// a header frame that takes a while to convert, sent at once, with the caller's cancel aimed at its arrival
+			hdr = MDOp{Kind: "sendhdr", MD: map[string][]string{"h": {"1"}}, BigKeys: rapid.SampledFrom([]int{300, 3000}).Draw(t, fmt.Sprintf("r%d.bigkeys", i)),
+				CancelAfterUs: rapid.IntRange(1, 800).Draw(t, fmt.Sprintf("r%d.cancelus", i))}
+		}
+		r.HOps = append([]MDOp{hdr}, r.HOps...)
 		r.HOps = append(r.HOps, MDOp{Kind: "settrl", MD: map[string][]string{"t": {"1", "2"}}})
 		if rapid.IntRange(0, 5).Draw(t, fmt.Sprintf("r%d.err", i)) == 0 {
 			r.Code, r.Msg = rapid.IntRange(1, 16).Draw(t, fmt.Sprintf("r%d.code", i)), "stress"
@@ -430,11 +437,35 @@ func raceInvolvesLibrary(log string) bool {
 				if strings.HasPrefix(f, "github.com/jhump/grpctunnel.") {
 					return true
 				}
+				if strings.HasPrefix(f, "google.golang.org/grpc.") {
+					// an access inside grpc-go's own stream code (real-transport runs): it is the library's doing if the
+					// library is what called into the stream there - grpc-go forbids concurrent SendMsg/CloseSend on one
+					// stream, and the harness never touches a carrier stream itself
+					for k := j + 1; k < len(lines); k++ {
+						g := strings.TrimSpace(lines[k])
+						if g == "" {
+							break
+						}
+						if strings.HasPrefix(g, "github.com/jhump/grpctunnel.") {
+							return true
+						}
+					}
+				}
 				break
 			}
 		}
 	}
 	return false
+}
+
+// genStressGRPC: the stress programs over real grpc-go (in-process pipe) instead of the harness's carrier: no wire tap and
+// no carrier faults, but grpc-go's own synchronisation - far less than the harness carrier's one mutex - decides which
+// accesses the race detector can see, and grpc-go's stream code is itself instrumented.
+func genStressGRPC(t *rapid.T) *Case {
+	c := genStress(t)
+	c.Prop = "stress_grpc"
+	c.Cfg.Carrier = "bufconn"
+	return c
 }
 
 // genStressCancel: bystanders plus RPCs whose context is already cancelled, or is cancelled very early, run free on all Ps.
